@@ -72,7 +72,8 @@ def describe(tier):
             + "; est x by_chrom x skip_low",
             "centring_par": "autosomes {none, 1, 1+2} x Y present/absent x every multiset of 1..3 X bins over {outside PAR, PAR1, PAR2 of GRCh37 only, PAR2 of GRCh38 only} x both styles; "
             "genome {none, grch37, grch38} x est x by_chrom" + (" x skip_low with one null bin at each X position" if t else ""),
-            "centring_other": "constant chromosomes; extra non-canonical contigs; tables with no autosome-like names; non-default row index; 24 chromosomes (1..22, X, Y)" + ("; 8, 12, 23 chromosomes" if t else ""),
+            "centring_other": "constant chromosomes; extra non-canonical contigs; tables with no autosome-like names; non-default row index; PAR-X bin kinds on derived tables (filtered index, null bins ahead of chrX with skip_low); "
+            "rows not in genomic order (every chromosome in two separate runs); 24 chromosomes (1..22, X, Y)" + ("; 8, 12, 23 chromosomes" if t else ""),
             "sex": (
                 "sex x reference sex x X bins {40,41,64,100,250,400} x Y bins {0,3,10,40} x sd {0.01,0.05,0.1,0.2,0.3} x weights {none,const,saw-tooth} x naming x autosome bins {200,1000,3000} "
                 "x 12 noise arrangements; female Y level {-4,-8,-20}; PAR genome with 10 PAR-X bins; 48 noise-free samples (sd 0)"
@@ -191,6 +192,23 @@ def center_cases(tier):
                         x0 = sum(c[1] for c in chroms[: len(autos)])
                         for p in range(len(kinds)):
                             yield {**base, "nulls": [x0 + p], "configs": "genome-est-by_chrom-skip_low"}
+    # ---- PAR-X bins on a derived table: row labels with holes (filtered index), and null bins ahead of chrX dropped by skip_low
+    for style in ("", "chr"):
+        for kinds in kind_sets:
+            chroms = chrom_list(("1", "2", "X"), style, "u2", level_map={"1": 0.4, "2": 2.0, "X": -1.0})
+            base = {"check": "center", "family": "par-derived", "style": style, "chroms": chroms, "pattern": "spread", "xkinds": list(kinds), "par_level": 0.7}
+            yield {**base, "index": "filtered", "configs": "genome-est-by_chrom"}
+            yield {**base, "nulls": [0], "configs": "genome-est-by_chrom-skip_low"}
+            yield {**base, "nulls": [1, 2], "index": "filtered", "configs": "genome-est-by_chrom-skip_low"}
+    # ---- rows not in genomic order: every chromosome's bins in two separate runs (e.g. all on-target bins, then all off-target bins)
+    for style in ("", "chr"):
+        for names in sets:
+            if not any(n not in "XY" for n in names):
+                continue
+            for shape in ("u3", "up") if t else ("u3",):
+                chroms = chrom_list(names, style, shape, level_map=STAIR)
+                yield {"check": "center", "family": "split-runs", "style": style, "chroms": chroms, "pattern": "spread", "order": "two-passes", "configs": "est-by_chrom-skip_low"}
+                yield {"check": "center", "family": "split-runs", "style": style, "chroms": chroms, "pattern": "spread", "order": "two-passes", "nulls": [0], "configs": "est-by_chrom-skip_low"}
     # ---- extra contigs, no autosome-like names, non-default index
     for style in ("", "chr"):
         for names in (("1", "2"), ("1", "2", "X"), ("1", "X", "Y")):
@@ -355,6 +373,14 @@ def table_rows(spec):
     for p in spec.get("nulls", []):
         rows[p][3] = NULL_LOG2
         rows[p][4] = True
+    if spec.get("order") == "two-passes":
+        # first every chromosome's 1st, 3rd, ... bin, then every chromosome's 2nd, 4th, ... bin
+        seen, first, second = {}, [], []
+        for r in rows:
+            k = seen.get(r[0], 0)
+            seen[r[0]] = k + 1
+            (first if k % 2 == 0 else second).append(r)
+        rows = first + second
     return [tuple(r) for r in rows]
 
 
